@@ -98,6 +98,19 @@ var c07Ctx = []struct{ name, tmpl, prelude string }{
 	{"with-mutex-lock.body", "(with-mutex-lock vmx0 (vtr (vheld vmx0)) @ (vtr 91))", ""},
 	{"with-mutex-lock.last", "(with-mutex-lock vmx0 (vtr 90) @)", ""},
 	{"return-from.value", "(block vother (vtr 90) (return-from vother @) (vtr 91))", ""},
+	// gi:recover — (recover sym on-recover form…)
+	{"recover.body", "(recover vr (vtr 93) (vtr 90) @ (vtr 91))", ""},
+	{"recover.last", "(recover vr (vtr 93) (vtr 90) @)", ""},
+	{"recover.on-recover", "(recover vr @ (vtr 90) (car (vtr 4)) (vtr 91))", ""},
+	// with-open-file — the stream is kept in a global so that it can be probed after the form was left
+	{"with-open-file.body", "(with-open-file (vs \"/dev/null\") (setq vgf# vs) (vtr (vopen vs)) @ (vtr 91))", ""},
+	{"with-open-file.last", "(with-open-file (vs \"/dev/null\") (setq vgf# vs) (vtr 90) @)", ""},
+}
+
+// c07Post: a last top-level form appended to the programs of a context (probes of what the form must have released)
+var c07Post = map[string]string{
+	"with-open-file.body": "(vtr (vopen vgf#))",
+	"with-open-file.last": "(vtr (vopen vgf#))",
 }
 
 // exit kinds: the hole and the program around the context (% marks the context)
@@ -138,6 +151,53 @@ var c07Extra = []struct{ name, exit, prog string }{
 	{"go.outside-tagbody", "err-control", "(vtr 1) (go 7)"},
 	{"defun.implicit-block", "ret-from", "(defun c07ib# (vz) (vtr 1) (return-from c07ib# (vtr vz)) (vtr 2)) (c07ib# 5)"},
 	{"loop.implicit-nil-block", "ret-nil", "(block vb (dolist (vx (quote (1 2 3))) (vtr vx) (if (= vx 2) (return (vtr 9)))) (vtr 5))"},
+	// re-entry: the form that produced an exit is evaluated again (recursion from a cleanup form) while the exit
+	// is still on its way to its target; every function is called more than once (slip compiles a body lazily and
+	// shares the compiled forms between activations only after the first complete call)
+	{"reentry.cleanup-recursion.defun-block", "ret-from", "(defun c07re# (vn) (unwind-protect (return-from c07re# (vtr vn)) (if (> vn 0) (c07re# (- vn 1))))) (vtr (list (c07re# 1) (c07re# 2) (c07re# 2)))"},
+	{"reentry.cleanup-recursion.inner-block", "ret-from", "(defun c07re# (vn) (block vb (unwind-protect (return-from vb (vtr vn)) (if (> vn 0) (c07re# (- vn 1)))) (vtr 99))) (vtr (list (c07re# 1) (c07re# 2) (c07re# 2)))"},
+	{"reentry.cleanup-recursion.let", "ret-from", "(defun c07re# (vn) (let ((va (* vn 10))) (unwind-protect (return-from c07re# (vtr (+ va vn))) (if (> vn 0) (c07re# (- vn 1))) (vtr va)))) (vtr (list (c07re# 1) (c07re# 2) (c07re# 2)))"},
+	{"reentry.cleanup-recursion.dolist-return", "ret-nil", "(defun c07re# (vn) (dolist (vx (quote (1 2))) (unwind-protect (return (vtr (+ vn vx))) (if (> vn 0) (c07re# (- vn 1)))))) (vtr (list (c07re# 1) (c07re# 2) (c07re# 2)))"},
+	{"reentry.cleanup-recursion.dotimes-return", "ret-nil", "(defun c07re# (vn) (dotimes (vi 2) (unwind-protect (return (vtr (+ vn vi))) (if (> vn 0) (c07re# (- vn 1)))))) (vtr (list (c07re# 1) (c07re# 2) (c07re# 2)))"},
+	{"reentry.cleanup-recursion.do-return", "ret-nil", "(defun c07re# (vn) (do ((vi 0 (+ vi 1))) ((>= vi 2) 77) (unwind-protect (return (vtr (+ vn vi))) (if (> vn 0) (c07re# (- vn 1)))))) (vtr (list (c07re# 1) (c07re# 2) (c07re# 2)))"},
+	{"reentry.cleanup-recursion.nested-cleanups", "ret-from", "(defun c07re# (vn) (unwind-protect (unwind-protect (return-from c07re# (vtr vn)) (vtr (+ vn 100))) (if (> vn 0) (c07re# (- vn 1))) (vtr (+ vn 200)))) (vtr (list (c07re# 1) (c07re# 2) (c07re# 2)))"},
+	{"reentry.cleanup-recursion.multiple-values", "ret-from", "(defun c07re# (vn) (unwind-protect (return-from c07re# (values (vtr vn) (vtr (+ vn 10)))) (if (> vn 0) (c07re# (- vn 1))))) (vtr (list (multiple-value-list (c07re# 1)) (multiple-value-list (c07re# 2)) (multiple-value-list (c07re# 2))))"},
+	{"reentry.cleanup-recursion.go", "go-fwd", "(defun c07re# (vn) (let ((vr 0)) (tagbody (unwind-protect (go 7) (if (> vn 0) (c07re# (- vn 1)))) (vtr 98) 7 (setq vr (vtr vn))) vr)) (vtr (list (c07re# 1) (c07re# 2) (c07re# 2)))"},
+	{"reentry.cleanup-recursion.error", "err-caught", "(defun c07re# (vn) (unwind-protect (car (vtr vn)) (if (> vn 0) (ignore-errors (c07re# (- vn 1)))) (vtr (+ vn 100)))) (vtr (multiple-value-list (ignore-errors (c07re# 1)))) (vtr (multiple-value-list (ignore-errors (c07re# 2))))"},
+	{"reentry.lambda-recursion", "ret-from", "(defun c07re# (vn vf) (block vb (unwind-protect (return-from vb (vtr vn)) (if (> vn 0) (funcall vf (- vn 1) vf))))) (vtr (list (c07re# 1 (function c07re#)) (c07re# 2 (function c07re#)) (c07re# 2 (function c07re#))))"},
+	{"reentry.mapcar-same-form", "ret-from", "(defun c07re# (vn) (block vb (vtr 0) (return-from vb (vtr vn)) (vtr 99))) (vtr (mapcar (function c07re#) (quote (1 2 3)))) (vtr (mapcar (function c07re#) (quote (4 5))))"},
+	{"reentry.value-form-recursion", "ret-from", "(defun c07re# (vn) (if (< vn 1) 0 (return-from c07re# (+ (vtr vn) (c07re# (- vn 1)))))) (vtr (list (c07re# 2) (c07re# 3)))"},
+	// multiple values carried by an exit
+	{"mv.return-from", "ret-from", "(multiple-value-list (block vb (vtr 1) (return-from vb (values (vtr 2) (vtr 3))) (vtr 4)))"},
+	{"mv.return-from-through-let", "ret-from", "(multiple-value-list (block vb (vtr 1) (let ((va 1)) (return-from vb (values (vtr 2) (vtr 3)))) (vtr 4)))"},
+	{"mv.return-from-through-unwind-protect", "ret-from", "(multiple-value-list (block vb (unwind-protect (return-from vb (values (vtr 2) (vtr 3))) (vtr 4))))"},
+	{"mv.return-nil-block-dolist", "ret-nil", "(multiple-value-list (dolist (vx (quote (1 2))) (vtr vx) (return (values (vtr 2) (vtr 3)))))"},
+	{"mv.return-from-defun", "ret-from", "(defun c07mv# (vz) (return-from c07mv# (values (vtr vz) (vtr 3))) (vtr 4)) (multiple-value-bind (va vb) (c07mv# 2) (vtr (list va vb)))"},
+	{"mv.return-from-no-values", "ret-from", "(multiple-value-list (block vb (return-from vb (values))))"},
+	{"mv.block-normal-last", "normal", "(multiple-value-list (block vb (vtr 1) (values (vtr 2) (vtr 3))))"},
+	{"mv.unwind-protect-normal", "normal", "(multiple-value-list (unwind-protect (values (vtr 2) (vtr 3)) (vtr 4)))"},
+	// recover / with-open-file beyond the product cells
+	{"recover.no-error", "normal", "(recover vr (vtr 93) (vtr 1) (vtr 2))"},
+	{"recover.no-forms", "normal", "(recover vr (vtr 93))"},
+	{"recover.symbol-bound", "err-type", "(recover vr (vtr (if vr 1 2)) (vtr 1) (car (vtr 5)) (vtr 2))"},
+	{"recover.symbol-scope", "err-type", "(let ((vr 7)) (list (recover vr (vtr 3) (car (vtr 5))) (vtr vr)))"},
+	{"recover.error-in-on-recover", "err-type", "(recover vr (/ (vtr 1) 0) (car (vtr 5)))"},
+	{"recover.nested-inner-first", "err-type", "(recover vr (vtr 1) (recover vq (vtr 2) (car (vtr 5))) (vtr 3))"},
+	{"recover.cleanup-before-handler", "err-type", "(recover vr (vtr 3) (unwind-protect (car (vtr 5)) (vtr 2)))"},
+	{"recover.mutex-released", "err-type", "(recover vr (vtr (vheld vmx0)) (with-mutex-lock vmx0 (vtr (vheld vmx0)) (car (vtr 5))))"},
+	{"recover.class.division-by-zero", "err-type", "(recover vr (vtr 3) (/ (vtr 1) 0))"},
+	{"recover.class.error", "err-error", "(recover vr (vtr 3) (error \"boom\"))"},
+	{"with-open-file.closed-after-normal", "normal", "(with-open-file (vs \"/dev/null\") (setq vgf# vs) (vtr (vopen vs))) (vtr (vopen vgf#))"},
+	{"with-open-file.closed-after-error", "err-caught", "(ignore-errors (with-open-file (vs \"/dev/null\") (setq vgf# vs) (car (vtr 5)))) (vtr (vopen vgf#))"},
+	{"with-open-file.closed-after-error", "err-type", "(recover vr (vtr 3) (with-open-file (vs \"/dev/null\") (setq vgf# vs) (car (vtr 5)))) (vtr (vopen vgf#))"},
+	{"with-open-file.closed-after-return-from", "ret-from", "(block vb (with-open-file (vs \"/dev/null\") (setq vgf# vs) (return-from vb (vtr 5)))) (vtr (vopen vgf#))"},
+	{"with-open-file.closed-after-return-through-let", "ret-from", "(block vb (with-open-file (vs \"/dev/null\") (setq vgf# vs) (let ((va 1)) (return-from vb (vtr 5))))) (vtr (vopen vgf#))"},
+	{"with-open-file.nested", "err-caught", "(ignore-errors (with-open-file (vs \"/dev/null\") (setq vgf# vs) (with-open-file (vt \"/dev/null\") (setq vgh# vt) (vtr (list (vopen vs) (vopen vt))) (car (vtr 5))))) (vtr (list (vopen vgf#) (vopen vgh#)))"},
+	{"with-open-file.path-exit", "ret-from", "(block vb (vtr 1) (with-open-file (vs (return-from vb (vtr 5))) (vtr 91)) (vtr 2))"},
+	{"with-open-file.path-exit", "err-type", "(vtr 1) (with-open-file (vs (car (vtr 5))) (vtr 91)) (vtr 2)"},
+	{"with-open-file.variable-scope", "normal", "(let ((vs 7)) (with-open-file (vs \"/dev/null\") (vtr (vopen vs))) (vtr vs))"},
+	{"with-open-file.options-evaluated-in-order", "normal", "(with-open-file (vs (vtr \"/dev/null\") (vtr :direction) (vtr :input)) (vtr (vopen vs)))"},
+	{"with-open-file.multiple-values-of-body", "normal", "(multiple-value-list (with-open-file (vs \"/dev/null\") (values (vtr 1) (vtr 2))))"},
 	{"error.class.division-by-zero", "err-type", "(vtr 1) (/ (vtr 1) 0)"},
 	{"error.class.unbound-variable", "err-type", "(vtr 1) (vtr vunboundvar)"},
 	{"error.class.undefined-function", "err-type", "(vtr 1) (vundefinedfn)"},
@@ -168,6 +228,9 @@ func c07SweepCases() []evCase {
 					prog = strings.Replace(ex.outer, "%", cx.tmpl, 1)
 				}
 				prog = pre + " " + prog
+			}
+			if post := c07Post[cx.name]; post != "" {
+				prog += " " + post
 			}
 			prog = strings.ReplaceAll(prog, "#", uniq)
 			out = append(out, evNewCase(prog, cx.name, ex.name, "sweep"))
